@@ -3,7 +3,7 @@ modelled with its real clipping/wrapping semantics, so a wrong slice shows up as
 from pyvc.api import contract
 from contracts.common import anybox
 from spec.boxes import in_box, in_image, is_bbox, exists_common_pixel
-from vprim import implies, arr_at, shape_of, is_array
+from vprim import implies, arr_at, shape_of, is_array, shares_memory
 
 MASK = 'regions/core/mask.py::RegionMask'
 
@@ -42,6 +42,8 @@ class mask_to_image:
         'shape': lambda shape, result: result is None or shape_of(result) == (shape[0], shape[1]),
         'placement': lambda self, shape, result, X, Y: result is None or (not in_image(shape, X, Y)) or (
             arr_at(result, Y, X) == (weight_at(self, X, Y) if in_box(self.bbox, X, Y) else 0)),
+        # the image is a new array: editing it in place must not reach the mask's own weights (placement would then fail the next time)
+        'is_a_new_array': lambda self, result: result is None or not shares_memory(result, self.data),
     }
 
 
@@ -109,6 +111,7 @@ class mask_multiply:
             arr_at(result, Y - self.bbox.iymin, X - self.bbox.ixmin),
             fill_value if (weight_at(self, X, Y) == 0 or not in_image(shape_of(data), X, Y) and fill_value != fill_value)
             else ((arr_at(data, Y, X) if in_image(shape_of(data), X, Y) else fill_value) * weight_at(self, X, Y))),
+        'is_a_new_array': lambda self, data, result: result is None or not (shares_memory(result, self.data) or shares_memory(result, data)),
     }
 
 
